@@ -43,7 +43,8 @@ LEVEL_TEXT = ("Proved in Lean for every history of start/advance/set_progress/di
               "_TIME_FORMATS) and by exhaustive small-scope plus random differential runs comparing every stream write.")
 LEVEL_NOTE = ("Trusted: Lean kernel + propext/Quot.sound/Classical.choice, the hand-written model (sampled by the "
               "correspondence), the virtual clock and the terminal emulator of the harness. Formats with style tags "
-              "(D29) are a known finding; the stale maximum after finish() on a plain output (D18b, found here) is repaired.")
+              "(D29) are a known finding; the stale maximum after finish() on a plain output (D18b, found here) and the redraw after "
+              "a set_format() with another number of lines (D39: set_format_no_residue on a terminal with rows) are repaired.")
 LEAN_MODULES = ["Clikit.Props.C16"]
 REQUIRED_THEOREMS = ["Clikit.Props.C16." + n for n in (
     "step_bounds", "bar_width", "percent_exact", "throttle", "throttle_spacing", "max_always_draws",
@@ -53,7 +54,8 @@ REQUIRED_THEOREMS = ["Clikit.Props.C16." + n for n in (
     "default_chars_ok", "run_with_message",
     "throttle_current_config", "throttle_spacing_current_config", "min_interval_setter",
     "max_always_draws_current_config", "quiet_nothing_current_config", "frames_truthful_current_config",
-    "bar_width_current_config", "setter_silent", "run_is_runC", "deciders_without_setters")]
+    "bar_width_current_config", "setter_silent", "run_is_runC", "deciders_without_setters",
+    "displayed_line_count_recorded", "set_format_no_residue", "set_format_section_clears_standing_frame")]
 RULE = ("exhaustive small scope: every call sequence up to length 4 over a pool of 8 (quick) / 11 (thorough) public "
         "calls with clock advances (start, advance(1) after 0 / 1/64 / 1/4 s [/ 2 s], advance(3) after 1/16 s, "
         "set_progress(max), display, clear, finish, set_message), thorough also lengths 5-6 over a 6-call pool and "
@@ -81,7 +83,7 @@ TRUSTED_BASE = [
 ASSUMPTIONS = [
     "setters called in the middle of a run take effect from the next call on; min_seconds_between_redraws(x) with x <= 0 "
     "is ignored by the API (the interval in force stays); a set_format() that changes the NUMBER OF LINES of the format "
-    "while a frame stands on an overwriting output is excluded from the oracle (pending finding, see report)",
+    "while a frame stands is judged like every other redraw (D39, repaired: the terminal must show exactly the new frame)",
     "one clock reading per public call (the virtual clock moves only between calls); real-clock jitter inside a call "
     "and preemption inside a stream write are outside the model",
     "CPython's binary64 division / multiplication (percent, bar offset, redraw period, %estimated%) equals the model's "
@@ -646,10 +648,6 @@ def _check_frame(case, text, message, ev, hyp=None):
     return None, complaint
 
 
-def _line_count(view):
-    return max(f.count("\n") for f in _candidates(view))
-
-
 def oracle(case, obs):
     kind = _eff(case["kind"])
     overwrite = kind in ("ansi", "section")
@@ -673,11 +671,6 @@ def oracle(case, obs):
                 return "%s: the setter raised %s" % (where, ev["err"])
             if data:
                 return "%s: a setter wrote %r" % (where, data[:60])
-            if name == "set_format" and overwrite and last_write_t is not None and \
-                    _line_count(view) != _line_count(dict(view, format=op["arg"])):
-                # pending finding, see report: a format with another number of lines set after the bar has written
-                # (a frame, or the blank lines of clear(), stand on the output with the old number of lines)
-                return None
             if name == "set_min":
                 if op["arg"] > 0:           # the API ignores a non-positive interval
                     view["min_ticks"] = op["arg"]
